@@ -72,9 +72,8 @@ deriving Repr, DecidableEq
 /-- `create_class_map`: fails on a repeated qname -/
 def createClassMap : List ModClass → Option (List Str)
   | [] => some []
-  | c :: cs => match createClassMap cs with
-    | none => none
-    | some qs => if qs.contains c.qname || cs.any (·.qname == c.qname) then none else some (c.qname :: qs)
+  | c :: cs =>
+    if cs.any (·.qname == c.qname) then none else (createClassMap cs).map (c.qname :: ·)
 
 /-- `create_class_list` -/
 def createClassList (classes : List ModClass) : Option (List Str) :=
